@@ -1,6 +1,6 @@
 --------------------------- MODULE Trace_Chaperone ---------------------------
 (* Flat validation of recorded folds.  Record = {order, single:{strict,extraction,lenient,repair} (outcome of each strategy tried alone on this raw text),
-   o: observation of the cascade fold}.  The cascade machine is run on (order, single): drift = the real cascade did not return the first valid strategy. *)
+   o: observation of the cascade fold (o.healed: the fold object was returned by ChaperoneLoop.heal, which lowers its confidence with every retry)}.  The cascade machine is run on (order, single): drift = the real cascade did not return the first valid strategy. *)
 EXTENDS Chaperone, Json, IOUtils
 VARIABLE i
 T == ndJsonDeserialize(IOEnv.TRACE_FILE)
@@ -12,6 +12,7 @@ Holds(c, o) == CASE c = "ValidSound" -> ValidSound(o) [] c = "InvalidClean" -> I
 Report == pc = "done" => LET r == T[i]
                              pf == {c \in Clauses : ~Holds(c, r.o)}
                              lo == ConfRange(r.o.strategy)[1]  hi == ConfRange(r.o.strategy)[2]
-                             dr == r.o.valid # result.valid \/ (r.o.valid /\ (r.o.strategy # result.strategy \/ r.o.conf < lo \/ r.o.conf > hi))
+                             \* (a fold that came out of the healing loop carries the loop's decayed confidence: only the range clause applies to it)
+                             dr == r.o.valid # result.valid \/ (r.o.valid /\ (r.o.strategy # result.strategy \/ (~r.o.healed /\ (r.o.conf < lo \/ r.o.conf > hi))))
                          IN (pf = {} \/ PrintT(<<"PF", i, pf>>)) /\ (~dr \/ PrintT(<<"DR", i>>))
 ===============================================================================
